@@ -177,7 +177,11 @@ def run(ctx):
            for n in walk_local(di.node))
   ctx.check(ok, 'C02.containers', construct(di), "dict items require ':' between key and value", "dict items no longer require ':'", di.loc(), instance='dict-colon')
 
-  # ---- C02.eos
+  eos(ctx, 'C02.eos')
+
+
+def eos(ctx, rule):
+  prog = ctx.prog
   ps = ctx.func(CP + '.parse_statement')
   g, facts = std_facts(prog, ps)
   end_def = None
@@ -195,7 +199,7 @@ def run(ctx):
       names = set(d.replace('(', '').replace(')', '').replace('[', '').replace(']', '').replace(' ', '').split(','))
       ok = names == {'tokenize.NEWLINE', 'tokenize.DEDENT', 'tokenize.ENDMARKER'}
       end_def = d
-    ctx.check(ok, 'C02.eos', construct(ps),
+    ctx.check(ok, rule, construct(ps),
               'a statement is returned only after the current token was checked to be NEWLINE / DEDENT / ENDMARKER (else syntax error)',
               'a parsed statement is returned without the end-of-statement check (end set: %s): trailing junk after a value is '
               'silently accepted' % end_def, ps.loc(n.ast), instance='return@%s' % u(n.ast.value))
@@ -210,5 +214,5 @@ def run(ctx):
     for l in lpn:
       if witness(g, a.id, [l.id], avoid=[e.id for e in exps]) is not None:
         ok = False
-  ctx.check(ok, 'C02.eos', construct(bb), 'each block member must be followed by NEWLINE before the next member is read',
+  ctx.check(ok, rule, construct(bb), 'each block member must be followed by NEWLINE before the next member is read',
             'a block member is accepted without a terminating NEWLINE check', bb.loc(), instance='block-member')
